@@ -607,10 +607,14 @@ class Machine(object):
             self.tick()
             op = node[0]
             if op == "lit":
-                self.push(wrap(node[1], self.bits))
-                self.max_abs = max(self.max_abs, abs(node[1]))
                 if not -(1 << 31) <= node[1] < (1 << 31):
-                    self.unspec.add("literal-beyond-int32")       # bytecodes are 32-bit: not representable, docs silent
+                    # bytecodes are 32-bit: not representable, the description is silent.  The model keeps going with the low 32 bits
+                    # (what the implementation stores), so that termination is decided on the same values
+                    self.unspec.add("literal-beyond-int32")
+                    self.push(wrap(wrap(node[1], 32), self.bits))
+                else:
+                    self.push(node[1])
+                self.max_abs = max(self.max_abs, abs(node[1]))
             elif op == "w":
                 self._builtin(node[1])
             elif op == "call":
